@@ -329,6 +329,53 @@ unsafe fn extend<'a, T: ?Sized>(r: &'a T) -> &'static T {
     std::mem::transmute::<&'a T, &'static T>(r)
 }
 
+/// C06 (`unwind=1`): what a thread owns is dropped when a panic unwinds its stack, as it would be
+/// for guards and handles held in local variables: its mutex / rwlock guards in reverse order of
+/// acquisition is not tracked, so in index order; then the Arc handle and the Track in the slot
+/// that carries the thread's own index.
+struct Unwind {
+    w: Rc<World>,
+    tid: usize,
+    body: usize,
+}
+
+impl Drop for Unwind {
+    fn drop(&mut self) {
+        if !std::thread::panicking() || !self.w.prog.cfg.unwind {
+            return;
+        }
+        let w = &self.w;
+        let keys: Vec<(usize, usize)> = w.mguards.borrow().keys().filter(|k| k.0 == self.tid).cloned().collect();
+        for k in keys {
+            if let Some(g) = w.mguards.borrow_mut().remove(&k) {
+                drop(ManuallyDrop::into_inner(g));
+            }
+        }
+        let keys: Vec<(usize, usize)> = w.rguards.borrow().keys().filter(|k| k.0 == self.tid).cloned().collect();
+        for k in keys {
+            if let Some(g) = w.rguards.borrow_mut().remove(&k) {
+                drop(ManuallyDrop::into_inner(g));
+            }
+        }
+        let keys: Vec<(usize, usize)> = w.wguards.borrow().keys().filter(|k| k.0 == self.tid).cloned().collect();
+        for k in keys {
+            if let Some(g) = w.wguards.borrow_mut().remove(&k) {
+                drop(ManuallyDrop::into_inner(g));
+            }
+        }
+        let h = w.handles.borrow_mut().remove(&self.body);
+        if let Some(h) = h {
+            if let Handle::Live(a) = ManuallyDrop::into_inner(h) {
+                drop(a);
+            }
+        }
+        let t = w.tracks.borrow_mut().remove(&self.body);
+        if let Some(t) = t {
+            drop(ManuallyDrop::into_inner(t));
+        }
+    }
+}
+
 /// run the body of DSL thread `body`
 pub fn run_thread(w: Rc<World>, body: usize) {
     let prog = w.prog.clone();
@@ -339,6 +386,7 @@ pub fn run_thread(w: Rc<World>, body: usize) {
         // handle used by `unpark 0`
         w.thread_handles.borrow_mut().insert(0, loom::thread::current());
     }
+    let _unwind = Unwind { w: w.clone(), tid, body };
     let mut results: HashMap<usize, Ret> = HashMap::new();
     let mut pc = 0usize;
     while pc < ops.len() {
